@@ -288,6 +288,9 @@ def hmf_solve_case(draw):
         base['epsilon'] = draw(st.sampled_from([10.0, 100.0, 1e4]))        # a strong smoothness penalty (non-negative mode only)
     base['dead_edge'] = draw(st.sampled_from([0, 0, 1, 2, 3]))
     base['dead_mid'] = draw(st.sampled_from([False, False, True]))
+    # round 12: a pixel where every unmasked flux is exactly 0 (a saturated absorption trough) while a masked entry of that column holds a
+    # non-zero number: it carries no information and is dropped like a column of zeros, whatever sits under the mask
+    base['dark_col'] = draw(st.sampled_from([False, False, True]))
     return dict(base, nonnegative=nn, hseed=draw(st.sampled_from([0, 7, 12345, 1, 0])), n_iter=draw(st.sampled_from([3, 5])),
                 state1=draw(st.integers(1, 10 ** 6)), state2=draw(st.integers(1, 10 ** 6)))
 
@@ -297,6 +300,12 @@ def hmf_solve_body(case):
     sp, iv = hmf_data(case)
     K = case['K']
     eps = case['epsilon']
+    if case.get('dark_col') and sp.shape[1] >= 8 and sp.shape[0] >= 3:
+        j_ = sp.shape[1] // 2 + 1
+        sp[:, j_] = 0.0
+        iv[1, j_] = 0.0
+        sp[1, j_] = 3.7
+        note_label('dark-column-with-a-masked-non-zero-entry')
     outs = []
     objs = []
     for state in (case['state1'], case['state2']):
